@@ -495,9 +495,7 @@ func runGovc(opt Options) (*Report, error) {
 				f.Discharged++
 			}
 		}
-		if f := byFn[o.Fn]; f != nil && o.Vacuity && or.Result == "vacuous" {
-			f.Obligations++
-		}
+
 	}
 	for _, f := range rep.Functions {
 		if f.Status == "pending" {
